@@ -108,7 +108,7 @@ def run_exec(pid, tier, seed, emphasis, scns=("exec",)):
                                      env={"ABTV_BUDGET": "400000"}))
         if not quick:
             for cfg in range(6):
-                for nes in (1, 2):
+                for nes in ((0,) if scn == "switch" else (1, 2)):   # (observations are snapshots only when serialized)
                     jobs.append(dict(exe=exe, scn=scn, seed0=seed * 1000000 + 700001, count=300,
                                      opts=("nes=%d" % nes, "cfg=%d" % cfg), mode="free", env={"ABTV_PERTURB": "1"}, timeout=900))
     runs = vlib.sweep(jobs)
